@@ -68,9 +68,39 @@ type PtrErr2 struct{ N int64 }
 func (e ValErr0) Error() string  { return fmt.Sprintf("valerr0(%d)", e.N) }
 func (e ValErr1) Error() string  { return fmt.Sprintf("valerr1(%d)", e.N) }
 func (e ValErr2) Error() string  { return fmt.Sprintf("valerr2(%d)", e.N) }
-func (e *PtrErr0) Error() string { return fmt.Sprintf("ptrerr0(%d)", e.N) }
-func (e *PtrErr1) Error() string { return fmt.Sprintf("ptrerr1(%d)", e.N) }
-func (e *PtrErr2) Error() string { return fmt.Sprintf("ptrerr2(%d)", e.N) }
+// (nil-safe: the typed nil pointers (*PtrErrN)(nil) are error values too -- non-nil interfaces of a definite type)
+func (e *PtrErr0) Error() string {
+	if e == nil {
+		return "ptrerr0(nil)"
+	}
+	return fmt.Sprintf("ptrerr0(%d)", e.N)
+}
+func (e *PtrErr1) Error() string {
+	if e == nil {
+		return "ptrerr1(nil)"
+	}
+	return fmt.Sprintf("ptrerr1(%d)", e.N)
+}
+func (e *PtrErr2) Error() string {
+	if e == nil {
+		return "ptrerr2(nil)"
+	}
+	return fmt.Sprintf("ptrerr2(%d)", e.N)
+}
+
+// typedNilB: ETypedP t typedNilB is built as the typed nil pointer (*PtrErr<t>)(nil): an error (err != nil) of type *PtrErr<t>,
+// equal only to itself.  For the library's classification it is an ordinary value of its type.
+const typedNilB = 99
+
+// asShimTy: ETypedP asShimTy n is built as an error whose As(any) method claims to be every type (a compatibility shim): the
+// library's type matching walks Unwrap chains and compares types, it does not consult As methods, so for it this is a plain
+// pointer error of a type nobody registers (the registered types are 0..2), equal only to itself.
+const asShimTy = 7
+
+type asShimErr struct{ n int64 }
+
+func (e *asShimErr) Error() string   { return fmt.Sprintf("as-shim(%d)", e.n) }
+func (e *asShimErr) As(any) bool     { return true }
 
 type CustomIsErr struct {
 	N      int64
@@ -139,10 +169,18 @@ func (d ErrD) build() error {
 			e = &ValErr2{d.B}
 		}
 	case "TypedP":
-		switch d.A {
-		case 0:
+		switch {
+		case d.A == asShimTy:
+			e = &asShimErr{d.B}
+		case d.B == typedNilB && d.A == 0:
+			e = (*PtrErr0)(nil)
+		case d.B == typedNilB && d.A == 1:
+			e = (*PtrErr1)(nil)
+		case d.B == typedNilB:
+			e = (*PtrErr2)(nil)
+		case d.A == 0:
 			e = &PtrErr0{d.B}
-		case 1:
+		case d.A == 1:
 			e = &PtrErr1{d.B}
 		default:
 			e = &PtrErr2{d.B}
